@@ -24,7 +24,7 @@ git -C "$WT" checkout -q --detach "$(git -C /repo rev-parse HEAD)" 2>/dev/null
 git -C "$WT" checkout -q -- . || exit 2
 if [ "$PATCH" != "/dev/null" ]; then git -C "$WT" apply "$PATCH" || { echo "patch does not apply" >&2; exit 2; }; fi
 mkdir -p "$VH"
-rsync -a --delete --exclude target /verif/harness/ "$VH/harness/"
+rsync -a --delete --exclude target "${VERIF_HARNESS_SRC:-/verif/harness}/" "$VH/harness/"
 cp /verif/known_findings.json "$VH/known_findings.json"
 # only the dependency edges and the include_str! move; corpus files are still read from /repo (test data)
 sed -i "s#/repo/crates#$WT/crates#g" "$VH/harness/Cargo.toml" "$VH/harness/miri/Cargo.toml"
